@@ -159,7 +159,7 @@ def tlc(module, cfg, env=None, workers=None, timeout=1500, extra=(), deque=False
     sd = specdir()
     meta = tempfile.mkdtemp(prefix="meta-", dir=scratch())
     e = dict(os.environ)
-    jopts = "-Xss" + xss
+    jopts = "-Xss" + xss + " -Djava.io.tmpdir=" + meta
     if deque:
         jopts += " -Dtlc2.tool.queue.IStateQueue=StateDeque"
     e["JAVA_TOOL_OPTIONS"] = (e.get("JAVA_TOOL_OPTIONS", "") + " " + jopts).strip()
